@@ -163,6 +163,20 @@ func runC03(c *ctx) {
 			batch = append(batch, row)
 			stored[id] = rb
 		}
+		// fixed rows whose TEXT contains what an escaper would produce or look for: a literal backslash followed
+		// by u0026 / u003c / u003e, doubled backslashes, escapes inside raw JSON, keys with such text
+		for j, row := range []map[string]any{
+			{"q": "tom \\u0026 jerry", "lt": "a \\u003c b \\u003e c", "amp": "x & y < z > w"},
+			{"body": "{\"a\":\"x \\u003c y\",\"b\":\"\\\\u0026\"}", "k\\u003e": 1, "bs": "\\\\", "u": "\\u00e9 \\ud83d"},
+			{"raw": json.RawMessage("\"pre\\u0026post \\\\u003c \\u003e\""), "nested": map[string]any{"s": []any{"\\u0026", "&", "\\\\u0026"}}},
+		} {
+			id := g*1000 + 900 + j
+			row["_id"] = id
+			if rb, ok := mustMarshal(row); ok {
+				batch = append(batch, row)
+				stored[id] = rb
+			}
+		}
 		if err := env.IngestWait(batch); err != nil {
 			c.r.Add(Finding{Kind: "disagreement", Check: "c03-ingest", Detail: err.Error(), Replay: nil})
 			env.Stop()
